@@ -41,6 +41,8 @@ type Cfg struct {
 	PeerLvl string   `json:"peerLvl"`
 	Mode    string   `json:"mode"`
 	Sess    Sess     `json:"sess"`
+	Est     string   `json:"est"`    // resumed: "Honest" or the deviation of the peer that established the session
+	EstEnc  string   `json:"estEnc"` // resumed: own encryption level of the establishing handshake
 }
 
 type Outcome struct {
@@ -159,7 +161,28 @@ func (c Cfg) realConfig(cache *security.SessionCache) *security.SecurityConfig {
 
 func (c Cfg) encReq() bool { return c.Enc == "REQUIRED" || c.Integ == "REQUIRED" }
 
-func (c Cfg) peerConfig(devs []string, keyless bool) peer.Config {
+// Forms are the concrete renderings of a negative answer (AnswerAuthNo /
+// AnswerEncNo of the specification are classes; "" is the literal NO / NEVER).
+var Forms = []string{"", "Omitted", "Lowercase", "Bool", "Garbage"}
+
+// HasForms reports whether the scenario has an answer whose rendering varies.
+func (g *Group) HasForms() bool {
+	return contains(g.Devs, "AnswerAuthNo") || contains(g.Devs, "AnswerEncNo")
+}
+
+func concreteDev(d, form string) peer.Dev {
+	if form != "" {
+		switch d {
+		case "AnswerAuthNo":
+			return peer.Dev("AnswerAuth" + form)
+		case "AnswerEncNo":
+			return peer.Dev("AnswerEnc" + form)
+		}
+	}
+	return peer.Dev(d)
+}
+
+func (c Cfg) peerConfig(devs []string, form string, keyless bool) peer.Config {
 	pc := peer.Config{AuthLevel: c.PeerLvl, EncLevel: c.PeerLvl, Command: appCommand, Timeout: Deadline}
 	if c.Role == "client" {
 		pc.Role = peer.Server
@@ -172,7 +195,7 @@ func (c Cfg) peerConfig(devs []string, keyless bool) peer.Config {
 	}
 	var ds []peer.Dev
 	for _, d := range devs {
-		ds = append(ds, peer.Dev(d))
+		ds = append(ds, concreteDev(d, form))
 	}
 	pc.Devs = peer.Devs(ds...)
 	if keyless { // an honest peer that simply has no AES
@@ -331,8 +354,9 @@ func (o *Obs) fill(c Cfg, devs []string, r runResult, resumed bool) {
 	}
 }
 
-// Run executes one scenario against the real code.
-func Run(g *Group) Obs {
+// Run executes one scenario against the real code; form selects the rendering
+// of a negative answer (see Forms).
+func Run(g *Group, form string) Obs {
 	var o Obs
 	c := g.Cfg
 	if c.Mode == "fresh" {
@@ -340,23 +364,31 @@ func Run(g *Group) Obs {
 		if c.Role == "server" {
 			cache = nil
 		}
-		r := handshake(c, c.realConfig(cache), c.peerConfig(g.Devs, false))
+		r := handshake(c, c.realConfig(cache), c.peerConfig(g.Devs, form, false))
 		o.fill(c, g.Devs, r, false)
 		if c.Role == "server" && r.neg != nil {
 			security.InvalidateSession(r.neg.SessionId) // keep the process-wide cache small
 		}
 		return o
 	}
-	// resumed: establish the session with an honest peer first
+	// resumed: establish the session first -- under the own encryption level of
+	// that time (EstEnc), against an honest peer or one that keeps the key from
+	// being agreed (Est) -- then resume it under the scenario's policy
 	keyless := !c.Sess.Keyed
 	cache := security.NewSessionCache()
+	ec := c
+	ec.Enc = c.EstEnc
+	var estDevs []string
+	if c.Est != "Honest" && c.Est != "" {
+		estDevs, keyless = []string{c.Est}, false
+	}
 	var scfg *security.SecurityConfig
 	if c.Role == "client" {
-		scfg = c.realConfig(cache)
+		scfg = ec.realConfig(cache)
 	} else {
-		scfg = c.realConfig(nil)
+		scfg = ec.realConfig(nil)
 	}
-	est := handshake(c, scfg, c.peerConfig(nil, keyless))
+	est := handshake(c, scfg, c.peerConfig(estDevs, "", keyless))
 	if est.err != nil {
 		o.Skip = "establishing handshake failed: " + est.err.Error()
 		return o
@@ -366,7 +398,7 @@ func Run(g *Group) Obs {
 		o.Skip = fmt.Sprintf("honest establishment under this policy yields session %+v, not %+v", o.Sess, c.Sess)
 		return o
 	}
-	pc := c.peerConfig(g.Devs, false)
+	pc := c.peerConfig(g.Devs, form, false)
 	var sid string
 	if c.Role == "client" {
 		sid = est.p.Cfg.Sid
@@ -525,9 +557,16 @@ func PolicyClass(c Cfg) string {
 }
 
 // Signature is the stable abstract identity of a failure.
-func Signature(g *Group, d *Diff) map[string]string {
-	return map[string]string{"spec": "HandshakeEvil", "role": g.Cfg.Role, "mode": g.Cfg.Mode,
+func Signature(g *Group, form string, d *Diff) map[string]string {
+	sig := map[string]string{"spec": "HandshakeEvil", "role": g.Cfg.Role, "mode": g.Cfg.Mode,
 		"deviation": devName(g.Devs), "policy": PolicyClass(g.Cfg), "invariant": d.Invariant}
+	if form != "" {
+		sig["answerForm"] = form
+	}
+	if c := g.Cfg; c.Mode == "resumed" && (c.Est != "Honest" || c.EstEnc != c.Enc) {
+		sig["establishment"] = c.Est + "/" + strings.ToLower(c.EstEnc)
+	}
+	return sig
 }
 
 // Quiet silences cedar's logging (it logs every handshake step at Info).
